@@ -223,6 +223,16 @@ pub fn generate<W: Write>(c: &mut Cases<W>, rng: &mut Rng, thorough: bool, with_
         let es: Vec<_> = (0..30u32).map(|i| (i.to_be_bytes().to_vec(), vec![i as u8; 50])).collect();
         emit(c, &FileCfg { block_size: bs, levels: (bs % 3) as u8, ..base.clone() }, &es, false);
     }
+    // configuration values that do not fit narrower integer types: index key intervals that are multiples of
+    // 2^32 (and the largest one), block sizes just above 2^32 with more data than their low 32 bits
+    for interval in [1usize << 32, 3usize << 32, (1usize << 32) + 1, usize::MAX] {
+        let es: Vec<_> = (0..40u32).map(|i| (i.to_be_bytes().to_vec(), vec![i as u8; 30])).collect();
+        emit(c, &FileCfg { interval: Some(interval), block_size: 1024, levels: (interval % 2) as u8, ..base.clone() }, &es, false);
+    }
+    for bs in [(1usize << 32) + 1500, 1usize << 32, (1usize << 32) + 1024, (1usize << 40) + 2048] {
+        let es: Vec<_> = (0..300u32).map(|i| (i.to_be_bytes().to_vec(), vec![i as u8; 50])).collect();
+        emit(c, &FileCfg { block_size: bs, levels: (bs % 3) as u8, ..base.clone() }, &es, false);
+    }
     // large blocks: a value far larger than any internal buffer of the codecs (and incompressible),
     // next to small entries, for every codec at a low and a higher level
     for codec in CODECS {
@@ -388,6 +398,18 @@ pub fn generate_c15<W: Write>(c: &mut Cases<W>, rng: &mut Rng, thorough: bool) {
             }
         }
     }
+    // block sizes that do not fit 32 bits, with more data than their low 32 bits: no cut may happen
+    for bs in [(1usize << 32) + 1500, 1usize << 32, (1usize << 32) + 1024, (1usize << 40) + 2048, usize::MAX] {
+        let es: Vec<_> = (0..300u32).map(|i| (i.to_be_bytes().to_vec(), vec![i as u8; 50])).collect();
+        emit(c, &FileCfg { block_size: bs, levels: (bs % 3) as u8, ..base.clone() }, &es, false);
+    }
+    // the default block size (the setter is not called) through the three ways to obtain a builder
+    for levels in 0..3u8 {
+        for level in 0..3u32 {
+            let es: Vec<_> = (0..400u32).map(|i| (i.to_be_bytes().to_vec(), vec![i as u8; 60])).collect();
+            emit(c, &FileCfg { block_size: 8192, levels, level, ..base.clone() }, &es, false);
+        }
+    }
     for i in 0..n {
         let mut cfg = gen_cfg(rng, i % 2 == 0, i % 5 == 0);
         if i % 4 == 1 {
@@ -432,6 +454,26 @@ pub fn generate_c18<W: Write>(c: &mut Cases<W>, rng: &mut Rng, thorough: bool) {
             emit(c, &cfg, &[(big.clone(), vec![1u8; 3]), (big.clone(), vec![2u8; 3])], false);
             emit(c, &cfg, &[(vec![0x60u8], vec![2u8; 3]), (big.clone(), vec![1u8; 3]), (vec![0x61u8; 5], vec![])], false);
             emit(c, &cfg, &[(vec![0x60u8], vec![2u8; 3]), (big.clone(), vec![1u8; 3]), (vec![0x62u8], vec![])], false);
+        }
+    }
+    // two entries per block: after a cut, a first key far above the last key of the block before, then a key
+    // between the two (below the first key of its own block: must panic), for several ways "between" can look
+    {
+        let cfg = FileCfg { codec: CompressionType::None, level: 0, block_size: 64, unclamped: true, interval: Some(1), levels: 1 };
+        let v = vec![7u8; 20];
+        for (p, f, s2) in [(vec![b'a'], vec![b'z'], vec![b'b']), (vec![b'a'], vec![b'z'], vec![b'a', b'z', 1]), (vec![b'a', b'z'], vec![b'z'], vec![b'b']),
+                           (vec![1u8], vec![9u8, 9], vec![1u8, 9, 9, 0]), (vec![], vec![5u8], vec![0u8]), (vec![0u8], vec![0u8, 0, 7], vec![0u8, 0])] {
+            let mut lo = p.clone();
+            lo.insert(0, 0);
+            let lo = if p.is_empty() { None } else { Some(lo) };
+            let mut es: Vec<(Vec<u8>, Vec<u8>)> = Vec::new();
+            if let Some(lo) = lo { if lo < p { es.push((lo, v.clone())); } }
+            es.push((p.clone(), v.clone()));
+            es.push((f.clone(), v.clone()));
+            es.push((s2.clone(), v.clone()));
+            emit(c, &cfg, &es, false);
+            emit(c, &FileCfg { levels: 0, ..cfg.clone() }, &es, false);
+            c.bump("c18.second_key_of_a_block", 1);
         }
     }
     // keys of eight bytes and more that agree on every whole 8-byte word they share and differ in the number of
